@@ -832,3 +832,197 @@ def _downstream_recvs(spec, s):
                             v["node"] in recv_deps(rk, rk["nodes"][s2["node"]]["data"]):
                         frontier.append((s2["rank"], s2["dst"], s2["tag"]))
     return sorted(i for (r, i) in reached_recv_nodes if r == s["rank"])
+
+
+# --------------------------------------------------------------------------- hand-built families
+
+def reuse_family():
+    """Valid programs whose communication dependency graph is a "diamond with a long and a
+    short path": a multi-round exchange whose last message combines an EARLY receive with a
+    LATE one (p <- {d, b}, b <- q <- d, ...), in every operand order, every order of the
+    outputs of the ranks, for 2 and 3 ranks and 4 or 6 rounds.  Yields specs."""
+    import itertools
+    idx = 0
+    for rounds, nranks, swap_ops, out0, out1, tagstyle in itertools.product(
+            (4, 6), (2, 3), (False, True), (0, 1), (0, 1), ("int", "str")):
+        # message k (0-based) goes from rank a_k to rank b_k; payload of message k>0 is computed
+        # from the receive of message k-1; the LAST message combines receive 0 (early, arrived at
+        # the same rank) with receive rounds-2 (late)
+        if nranks == 2:
+            route = [(0, 1) if k % 2 == 0 else (1, 0) for k in range(rounds)]
+        else:
+            # 0 -> 1, 1 -> 2, 2 -> 1, 1 -> 0 (, 0 -> 1, 1 -> 0 …): rank 1 gets message 0 and message 2
+            base = [(0, 1), (1, 2), (2, 1), (1, 0), (0, 1), (1, 0)]
+            route = base[:rounds]
+        last_src = route[-1][0]
+        # the early receive that the last sender re-uses: the first message that arrived at last_src
+        early = next(k for k in range(rounds - 1) if route[k][1] == last_src)
+        late = rounds - 2
+        if route[late][1] != last_src or early == late:
+            continue
+        ranks = [{"nodes": [{"op": "input", "name": "x"}], "outputs": []} for _ in range(nranks)]
+        recv_node = {}
+        holders = [[] for _ in range(nranks)]
+        # receives first (leaves), on their destination ranks
+        for k, (a, b) in enumerate(route):
+            ranks[b]["nodes"].append({"op": "recv", "src": a, "tag": k, "variant": 0})
+            recv_node[k] = len(ranks[b]["nodes"]) - 1
+        for k, (a, b) in enumerate(route):
+            nodes = ranks[a]["nodes"]
+            if k == 0:
+                data = 0
+            elif k == rounds - 1:
+                e, l = recv_node[early], recv_node[late]
+                nodes.append({"op": "add", "a": l if swap_ops else e, "b": e if swap_ops else l})
+                data = len(nodes) - 1
+            else:
+                nodes.append({"op": "addc", "a": recv_node[k - 1], "c": 1})
+                data = len(nodes) - 1
+            pas = holders[a][-1] if holders[a] else 0
+            nodes.append({"op": "send", "data": data, "dst": b, "tag": k, "pass": pas})
+            holders[a].append(len(nodes) - 1)
+        final_dst = route[-1][1]
+        for r in range(nranks):
+            nodes = ranks[r]["nodes"]
+            outs = []
+            if holders[r]:
+                outs.append(["aux", holders[r][-1]])
+            if r == final_dst:
+                nodes.append({"op": "mulc", "a": recv_node[rounds - 1], "c": 2})
+                outs.append(["res", len(nodes) - 1])
+            # receives that nothing on this rank uses must stay alive
+            used = set()
+            for nd in nodes:
+                for kk in ("a", "b", "data", "pass"):
+                    if kk in nd:
+                        used.add(nd[kk])
+            for i, nd in enumerate(nodes):
+                if nd["op"] == "recv" and i not in used:
+                    outs.append([f"keep{i}", i])
+            if not outs:
+                outs.append(["res", 0])
+            flip = out0 if r == 0 else out1
+            ranks[r]["outputs"] = outs[::-1] if flip else outs
+        tags = [["i", 100 + k] if tagstyle == "int" else ["s", f"m{k}"] for k in range(rounds)]
+        yield {"nranks": nranks, "n": 2, "topology": "reuse", "tags": tags, "ranks": ranks,
+               "seed": 0, "index": idx, "profile": "reuse",
+               "family": {"rounds": rounds, "nranks": nranks, "late_first": swap_ops,
+                          "rank0_outputs_flipped": bool(out0), "rank1_outputs_flipped": bool(out1)}}
+        idx += 1
+
+
+def _styled_tags(n, style, salt=0):
+    """n pairwise distinct symbolic tags of one style (or mixed), hash-seed sensitive"""
+    words = ["alpha", "bravo", "charlie", "delta", "echo", "foxtrot", "golf", "hotel", "india", "juliet",
+             "kilo", "lima"]
+    out = []
+    for k in range(n):
+        st = style if style != "mixed" else ["s", "t", "c", "F", "b"][(k + salt) % 5]
+        w = words[(k + salt) % len(words)]
+        if st == "s":
+            out.append(["s", w])
+        elif st == "t":
+            out.append(["t", [["s", w], ["i", k]]])
+        elif st == "c":
+            out.append(["c", 1000 + 7 * k + salt])
+        elif st == "F":
+            out.append(["F", [w, w + "2", str(k)]])
+        elif st == "b":
+            out.append(["b", (w[:3] + str(k)).encode().hex()])
+        else:
+            out.append(["i", 100 + k])
+    return out
+
+
+def fanin_family():
+    """Valid programs in which one send's payload combines SEVERAL distinct receives:
+    (a) fan-in chains towards lower ranks (top rank sends k arrays down, every rank below sends
+        sums of what it received further down), 3 or 4 ranks, k = 2..5;
+    (b) two-rank ping-pongs: rank 0 sends k arrays, rank 1 returns their sum (and a partial sum);
+        rank 0's output is written `recv + stapled sends` (receive traversed first) or
+        `stapled sends around the receive`.
+    Symbolic tags of every style.  Yields specs."""
+    idx = 0
+    for style in ("s", "t", "c", "F", "b", "mixed", "i"):
+        for k in (2, 3, 4, 5):
+            for nranks in (3, 4):
+                tags = []
+                ranks = [{"nodes": [{"op": "input", "name": "x"}], "outputs": []} for _ in range(nranks)]
+                incoming = {r: [] for r in range(nranks)}       # rank -> [(src, tag index)]
+                # top rank
+                top = nranks - 1
+                nodes = ranks[top]["nodes"]
+                prev = 0
+                for j in range(k):
+                    nodes.append({"op": "addc", "a": 0, "c": j + 1})
+                    tags.append(None)
+                    t = len(tags) - 1
+                    nodes.append({"op": "send", "data": len(nodes) - 1, "dst": top - 1, "tag": t, "pass": prev})
+                    prev = len(nodes) - 1
+                    incoming[top - 1].append((top, t))
+                ranks[top]["outputs"] = [["aux", prev]]
+                for m in range(top - 1, -1, -1):
+                    nodes = ranks[m]["nodes"]
+                    rn = []
+                    for src, t in incoming[m]:
+                        nodes.append({"op": "recv", "src": src, "tag": t, "variant": 0})
+                        rn.append(len(nodes) - 1)
+                    acc = rn[0]
+                    partial = None
+                    if len(rn) == 1:
+                        nodes.append({"op": "addc", "a": acc, "c": 1})      # never forward a receive unchanged
+                        acc = len(nodes) - 1
+                    for j, v in enumerate(rn[1:]):
+                        nodes.append({"op": "add", "a": acc, "b": v})
+                        acc = len(nodes) - 1
+                        if j == 0:
+                            partial = acc
+                    if m == 0:
+                        ranks[m]["outputs"] = [["res", acc]]
+                        break
+                    prev = 0
+                    for data in ([acc] if partial is None or partial == acc else [acc, partial]):
+                        tags.append(None)
+                        t = len(tags) - 1
+                        nodes.append({"op": "send", "data": data, "dst": m - 1, "tag": t, "pass": prev})
+                        prev = len(nodes) - 1
+                        incoming[m - 1].append((m, t))
+                    ranks[m]["outputs"] = [["aux", prev]]
+                yield {"nranks": nranks, "n": 2, "topology": "fanin", "tags": _styled_tags(len(tags), style, idx),
+                       "ranks": ranks, "seed": 0, "index": idx, "profile": "fanin",
+                       "family": {"kind": "fanin-chain", "k": k, "nranks": nranks, "tags": style}}
+                idx += 1
+            for recv_first in (True, False):
+                tags = []
+                r0 = [{"op": "input", "name": "x"}]
+                r1 = [{"op": "input", "name": "x"}]
+                prev = 0
+                recvs1 = []
+                for j in range(k):
+                    r0.append({"op": "addc", "a": 0, "c": j + 1})
+                    tags.append(None)
+                    t = len(tags) - 1
+                    r0.append({"op": "send", "data": len(r0) - 1, "dst": 1, "tag": t, "pass": prev})
+                    prev = len(r0) - 1
+                    r1.append({"op": "recv", "src": 0, "tag": t, "variant": 0})
+                    recvs1.append(len(r1) - 1)
+                acc = recvs1[0]
+                for v in recvs1[1:]:
+                    r1.append({"op": "add", "a": acc, "b": v})
+                    acc = len(r1) - 1
+                tags.append(None)
+                tt = len(tags) - 1
+                r1.append({"op": "send", "data": acc, "dst": 0, "tag": tt, "pass": 0})
+                out1 = len(r1) - 1
+                r0.append({"op": "recv", "src": 1, "tag": tt, "variant": 0})
+                rv = len(r0) - 1
+                if recv_first:
+                    r0.append({"op": "add", "a": rv, "b": prev})          # recv + stapled sends
+                else:
+                    r0.append({"op": "add", "a": prev, "b": rv})
+                yield {"nranks": 2, "n": 2, "topology": "fanin", "tags": _styled_tags(len(tags), style, idx),
+                       "ranks": [{"nodes": r0, "outputs": [["res", len(r0) - 1]]},
+                                 {"nodes": r1, "outputs": [["aux", out1]]}],
+                       "seed": 0, "index": idx, "profile": "fanin",
+                       "family": {"kind": "pingpong-sum", "k": k, "recv_first": recv_first, "tags": style}}
+                idx += 1
